@@ -87,10 +87,14 @@ def error_msgs(msgs):
 # ------------------------------------------------------------------------------------------------
 # RT engine
 
-def build_rt(tier):
-    """generate + build the runtime subject crates; returns the driver binary path"""
+def build_rt(tier, skip=()):
+    """generate + build the runtime subject crates; returns the driver binary path. `skip`: subject indexes
+    replaced by placeholders (they do not compile against the current tree; C08 reports that)"""
     out = os.path.join(GEN, tier, "rt")
-    sh([os.path.join(TARGET, "release", "ntgen"), "rt", "--tier", tier, "--out", out])
+    cmd = [os.path.join(TARGET, "release", "ntgen"), "rt", "--tier", tier, "--out", out]
+    if skip:
+        cmd += ["--skip", ",".join(str(i) for i in sorted(skip))]
+    sh(cmd)
     rc, msgs, tail = cargo_json(["cargo", "build", "--release", "--offline", "-q"], cwd=out)
     if rc != 0:
         errs = error_msgs(msgs)
@@ -159,24 +163,29 @@ def rt_build_failure(prop, tier, errs, tail):
 
 
 def run_rt(prop, tier, only=None):
+    excluded = set()
+    c07_found = []
     with Lock():
         build_harness()
         binp, errs, tail = build_rt(tier)
+        # Subjects whose crate does not compile against the current tree: that is a C08 matter ("well-formed
+        # declaration refused", reported by ./check C08, which builds this very pool) or - when the error is in
+        # the exhaustive match over the error variants - a C07 matter (variant set differs from the declared
+        # validators). Every property is then decided on the subjects that do compile: the failing ones are
+        # replaced by placeholders and the pool is rebuilt (at most 4 rounds).
+        rounds = 0
+        while binp is None and rounds < 4:
+            rounds += 1
+            found = rt_build_failure(prop, tier, errs, tail)
+            c07_found += [f for f in found if f["in_ename"] and f["subject"] is not None]
+            bad = set(f["subject"] for f in found if f["subject"] is not None)
+            if not bad or bad <= excluded:
+                break
+            excluded |= bad
+            binp, errs, tail = build_rt(tier, skip=excluded)
     if binp is None:
         found = rt_build_failure(prop, tier, errs, tail)
-        rep = {"property": prop, "tier": tier, "subjects": 0, "evaluations": 0, "states": 0, "transitions": 0, "traces_validated_against_impl": 0, "distinct_nontrivial": 0, "histogram": {}, "samples": [], "violations": [], "violation_count": 0, "exhaustive": False, "bounds": {}, "notes": [], "rule": "", "machinery_errors": [], "wall_s": 0.0}
-        relevant = []
-        for f in found:
-            if prop == "C07" and f["in_ename"]:
-                relevant.append(("variant-set-differs", f))
-            elif prop == "C08" and not f["in_ename"]:
-                relevant.append(("rejected-but-must-accept", f))
-        if not relevant:
-            raise Machinery("the runtime subject pool does not compile against the current tree (%d errors), property %s cannot be decided; first: %s\n%s" % (len(found), prop, found[0] if found else "?", tail[-1500:]))
-        for cls, f in relevant:
-            rep["violations"].append({"property": prop, "subject": f["subject"], "decl": "subject %s of the %s pool" % (f["subject"], tier), "shape": "rt-pool", "entry": "rustc", "input": "%s:%s" % (f["file"], f["line"]), "expected": "subject crate compiles", "observed": "%s %s" % (f["code"], f["message"]), "class": cls})
-        rep["violation_count"] = len(relevant)
-        return rep
+        raise Machinery("the runtime subject pool does not compile against the current tree (%d errors) and the failing subjects cannot be isolated; property %s cannot be decided; first: %s\n%s" % (len(found), prop, found[0] if found else "?", tail[-1500:]))
     outp = os.path.join(GEN, tier, "report_%s.json" % prop)
     cmd = [binp, prop, "--tier", tier, "--out", outp]
     if only is not None:
@@ -193,7 +202,20 @@ def run_rt(prop, tier, only=None):
     if p.returncode != 0:
         raise Machinery("driver failed (%d): %s" % (p.returncode, p.stderr[-3000:]))
     with open(outp) as f:
-        return json.load(f)
+        rep = json.load(f)
+    if prop == "C07":
+        seen = set()
+        for f in c07_found:
+            if f["subject"] in seen:
+                continue
+            seen.add(f["subject"])
+            rep["violations"].append({"property": "C07", "subject": f["subject"], "decl": subject_decl_text(f["file"], f["subject"]), "shape": "rt-pool", "entry": "rustc", "input": "%s:%s" % (f["file"], f["line"]), "expected": "the error enum has exactly one variant per declared validator (exhaustive match without wildcard compiles)", "observed": "%s %s" % (f["code"], f["message"]), "class": "variant-set-differs"})
+            rep["violation_count"] = rep.get("violation_count", 0) + 1
+    if excluded:
+        rep.setdefault("notes", []).append("%d subject(s) of the runtime pool do not compile against this tree and were excluded from this exploration (%s); that refusal is reported by ./check C08" % (len(excluded), ", ".join("Nt%d" % i for i in sorted(excluded)[:20])))
+        rep.setdefault("histogram", {})["subjects-excluded-not-compiling"] = len(excluded)
+        rep["exhaustive"] = False
+    return rep
 
 
 # ------------------------------------------------------------------------------------------------
